@@ -1141,8 +1141,23 @@ func checkC19(c *Check) {
 				})
 				return hit
 			}
+			var getErr types.Object
+			if as, ok := gets[0].Node().(*ast.AssignStmt); ok && len(as.Lhs) == 2 {
+				getErr = objOf(ri, as.Lhs[1])
+			}
 			gone := func(q Pt) bool {
 				if r.F.IsExitPt(q) {
+					// the failure return of Get itself: no connection was handed out
+					if getErr != nil {
+						if r.F.KnownNonNil(getErr) {
+							return false
+						}
+						if is, ok := q.B.Stmt.(*ast.IfStmt); ok && q.B.Kind == kindIfThen {
+							if be, ok := ast.Unparen(is.Cond).(*ast.BinaryExpr); ok && be.Op == token.NEQ && isNilIdent(ri, be.Y) && objOf(ri, be.X) == getErr {
+								return false
+							}
+						}
+					}
 					return true
 				}
 				if q.Node() != nil {
@@ -1267,7 +1282,9 @@ func checkC19(c *Check) {
 				return false
 			}
 			for _, d := range defs {
-				if path, f := r.F.Reach(Query{From: []Pt{d}, Target: r.F.IsNormalExit, Avoid: owned, AvoidEdge: helperFailed}); f {
+				// (the connection variable was just assigned the assertion of a non-nil pooled value: it is not nil, a
+				// following `if conn == nil { conn, err = newConn() }` is not taken)
+				if path, f := r.F.ReachRefined2(d, connObj, false, false, r.F.IsNormalExit, owned, helperFailed); f {
 					msg = "a connection taken from the pool can be dropped (neither recorded for Close nor closed): " + r.F.Describe(path)
 				}
 			}
